@@ -74,6 +74,7 @@ type Inc struct {
 	imageAtBoot bootImage
 	openedSnapIdx uint64
 	beyondSince time.Duration
+	bootFaults  int64
 }
 
 type noteRec struct {
@@ -153,6 +154,10 @@ func (w *World) violate(prop, class, format string, a ...any) *Violation {
 			return &w.viol[i]
 		}
 	}
+	v.Facts["hb_fastpath"] = fmt.Sprint(w.cfg.HeartbeatFastPath)
+	v.Facts["store_flavour"] = fmt.Sprint(w.cfg.StoreFlavour)
+	v.Facts["restore_committed_logs"] = fmt.Sprint(w.cfg.StoreFlavour == FlavourCommitTracking && w.cfg.RestoreCommittedLogs)
+	v.Facts["disk_errors_injected"] = fmt.Sprint(w.stats.Faults["disk_full_error"]+w.stats.Faults["disk_op_error"] > 0)
 	w.viol = append(w.viol, v)
 	w.event("VIOLATION %s %s: %s", prop, class, v.Msg)
 	return &w.viol[len(w.viol)-1]
@@ -264,6 +269,7 @@ func (w *World) boot(n *Node, bootstrap *raft.Configuration) *Inc {
 			}
 		}
 		inc.imageAtBoot = w.or.captureBootImage(n)
+		inc.bootFaults = w.stats.Faults["disk_full_error"] + w.stats.Faults["disk_op_error"]
 		r, err := raft.NewRaft(conf, inc.fsm.asRaftFSM(), ls, ss, snaps, inc.trans)
 		inc.checkAlive()
 		inc.booting = false
